@@ -111,10 +111,10 @@ class _Handler(zkfake._Handler):     # pylint: disable=protected-access
         self.proc = proc
 
     def lock_object(self):
-        return _sched.CoopLock()
+        return _sched.CoopLock(self.world.sched)
 
     def rlock_object(self):
-        return _sched.CoopLock(reentrant=True)
+        return _sched.CoopLock(self.world.sched, reentrant=True)
 
     def spawn(self, func, *a, **kw):
         dw = getattr(func, '__self__', None)
@@ -452,6 +452,8 @@ class World:
     def choices(self, phase):
         out = []
         for t in self.sched.live:
+            if not self.sched.runnable(t):
+                continue
             host = t.owner.host.name
             weight = WEIGHTS['run'] * self.bias[host]
             if (self.policy == 'stretch' and t.pending is not None
@@ -466,7 +468,7 @@ class World:
                     out.append(('req:' + name, WEIGHTS['req'] * self.bias[name], ('req', p)))
                 if p.active_watch is None and p.wq:
                     out.append(('watch:' + name, WEIGHTS['watch'] * self.bias[name], ('watch', p)))
-                if phase != 'drain':
+                if phase != 'drain' and self._worth_a_fault(h):
                     if self.expiries_left > 0:
                         out.append(('expire:' + name, WEIGHTS['expire'], ('expire', h)))
                     if self.crashes_left > 0:
@@ -478,6 +480,16 @@ class World:
                 if all(d in self.done_actions for d in a['deps']):
                     out.append(('act:' + a['id'], WEIGHTS['act'], ('act', a)))
         return out
+
+    def _worth_a_fault(self, host):
+        """A fault is only offered where it can matter: the process has open
+        requests, work in flight, or its session owns nodes."""
+        p = host.proc
+        if p.inbox or p.wq or p.active_req is not None or p.active_watch is not None:
+            return True
+        if any(c['open'] and c['host'] == host.name for c in self.cont.values()):
+            return True
+        return any(n.owner == p.sid for n in self.srv.nodes.values())
 
     def pick(self, ch):
         if self.script is not None and self.script_pos < len(self.script):
@@ -676,6 +688,8 @@ class World:
             self.execute(self.pick(ch))
         self.count('steps', self.steps)
         self.count('drain_steps', drain)
+        if not ch and self.sched.live:
+            raise _sched.Stall('tasks wait for locks nobody will release: %r' % (self.sched.live,))
         if not self.violations or all(v[0] != 'no-quiescence-after-faults-stop' for v in self.violations):
             self.quiescent_check()
 
